@@ -15,7 +15,7 @@ def make_client(E, with_conn):
     if with_conn:
         conn = E.obj(CSC, tag='conn',
                      send_keep_alive_interval=E.real('c_ka'), temp_connection_timeout=E.real('c_tct'),
-                     outgoing_timeout=E.real('c_ot'), send_interval=E.real('c_si'))
+                     outgoing_timeout=E.real('c_ot'), send_interval=E.real('c_si'), status=status(E, 'c_status'))
     return E.obj(UC, tag='self', conn=conn, sock=None, disconnect_acked=False, server_public_key=None,
                  keep_alive_interval=E.real('u_ka'), temp_connection_timeout=E.real('u_tct'), outgoing_timeout=E.real('u_ot'))
 
@@ -36,6 +36,7 @@ def setter_contract(fname, field, conn_field, argname):
             'setup': (lambda E, with_conn=with_conn: {'self': make_client(E, with_conn), argname: E.real('value', lo=0)}),
             # "take effect and never raise": no raises clause at all -> any exception fails `no-other-exception`
             'ensures': ens,
+            # a live connection exists from connect() on, whatever its status (CONNECTING included)
             'modifies': ['self.' + field] + (['self.conn.' + conn_field] if with_conn else []),
         }
         contract('client.UdpClient.' + fname, props=['C12'],
